@@ -155,7 +155,10 @@ impl DigitString {
 
     /// Range is inclusive on both ends.
     pub fn is_range_free(&self, start_position: usize, end_position: usize) -> bool {
-        debug_assert!(start_position < end_position);
+        if start_position > end_position {
+            // an inverted range contains no position at all
+            return true;
+        }
         if start_position >= self.buffer.len() {
             return true;
         }
